@@ -159,6 +159,12 @@ pub fn exports_of(src: &str) -> Result<Exports, String> {
 }
 
 fn case_fn(case: &mut Case) -> CaseResult {
+    case_fn_mode(case, false)
+}
+
+/// `c12_mode`: judge the loader's module by the C12 oracle (every embedded document = the definition
+/// followed by exactly the fragments it transitively spreads) instead of the C14 export oracle
+fn case_fn_mode(case: &mut Case, c12_mode: bool) -> CaseResult {
     abi::init_once();
     let so = SchemaGenOpts::default();
     let gs = gen_schema(&mut case.ch, &so);
@@ -264,6 +270,33 @@ fn case_fn(case: &mut Case) -> CaseResult {
     let js = res?;
     let detail = json!({"config": cfg_text, "main.graphql": main_text, "lib.graphql": if split { json!(lib_text) } else { json!(null) }, "dts": dts, "js": js});
 
+    if c12_mode {
+        use vh::props::c12::{check_embedded, embedded_documents};
+        let mut source: Vec<MExecDef> = main_doc.iter().filter(|d| !matches!(d, MExecDef::Import(_))).cloned().collect();
+        source.extend(lib_doc.iter().cloned());
+        let frags = vh::gen_ops::frag_map(&source);
+        let docs = embedded_documents(&js).map_err(|e| Failure::new("js-unreadable", e, detail.clone()))?;
+        // (the module also holds constants for the imported fragments; each must satisfy the same oracle)
+        let n_own = main_doc.iter().filter(|d| !matches!(d, MExecDef::Import(_))).count();
+        if docs.len() < n_own {
+            return Err(Failure::new("embedded-document-missing", format!("the loader's module embeds {} documents for {} definitions of the file", docs.len(), n_own), detail));
+        }
+        for (name, got) in &docs {
+            case.evals(1);
+            check_embedded(name, got, &source, &frags).map_err(|(sig, msg)| Failure::new(format!("{sig}:loader"), msg, detail.clone()))?;
+        }
+        if split {
+            case.label("imported-fragments");
+        }
+        if interleave {
+            case.label("interleaved-tasks");
+        }
+        if docs.iter().any(|(_, d)| d.len() >= 2) {
+            case.nontrivial(&(&cfg_text, &main_text));
+        }
+        case.sample(|| json!({"config": cfg_text, "main.graphql": main_text, "embedded": docs.iter().map(|(n, d)| format!("{n}: {} definitions", d.len())).collect::<Vec<_>>()}));
+        return Ok(());
+    }
     let d_ex = exports_of(&dts).map_err(|e| Failure::new("dts-unreadable", e, detail.clone()))?;
     let j_ex = exports_of(&js).map_err(|e| Failure::new("js-unreadable", e, detail.clone()))?;
     // resolved document of the main file, in definition order
@@ -350,5 +383,16 @@ pub fn run(env: &Env) -> i32 {
     );
     rep.assume("the k-th constant of the declaration file stands for the k-th definition of the resolved document (both printers share one traversal)");
     rep.campaign("configs", env.cases(15_000, 150_000), (300, 1500), case_fn);
+    rep.finish()
+}
+
+/// C12, loader route: the JSON documents embedded in the loader's JavaScript
+pub fn run_c12(env: &Env) -> i32 {
+    let mut rep = Report::new(
+        env,
+        "exploration",
+        "loader route of C12: the generated valid operation files and configurations of the C14 check (fragments local or imported from a second file), emitted by the loader through the native ABI, in half of the cases while tasks for other files are started, finished and freed in between. Oracle: every document embedded in the module is one definition of the file followed by exactly the fragments it transitively spreads, each once and equal to its source (the C12 oracle of the in-process check, via the same independent graphql-js JSON reader). Non-trivial: an embedded document with >= 2 definitions.",
+    );
+    rep.campaign("loader-embedded-documents", env.cases(8_000, 100_000), (300, 1500), |case| case_fn_mode(case, true));
     rep.finish()
 }
